@@ -14,7 +14,7 @@ ID = "C17"
 LEVEL = "model_checking"
 MIN_OUTCOMES = 3
 MANIFEST = {
-    'text': 'All BUILD ids of 1..5 digits (quick) / 1..7 digits (thorough) including zero-padded ones take one real bump each (edge invariant over every state of a digit class is inductive for chains inside the class); every 37th id also under five flag sets (--pin-increments/--pin-date/--tag/date changes); complete chains of 2,000 / 10,000 bumps from 40 starts confirm the digit-length crossings; `update` chains behind a stale VCS tag (one project with `.git` as a file, number-like versions in TOML and unquoted setup.cfg, chains through ids ending in 00) and one step from behind a NEWER tag; BUILD alone, BLD, and BUILD inside vYYYY0M.BUILD[-TAG] are driven through the real command bodies.',
+    'text': 'All BUILD ids of 1..5 digits (quick) / 1..7 digits (thorough) including zero-padded ones take one real bump each (edge invariant over every state of a digit class is inductive for chains inside the class); every 37th id also under five flag sets (--pin-increments/--pin-date/--tag/date changes); complete chains of 2,000 / 10,000 bumps from 40 starts confirm the digit-length crossings; `update` chains behind a stale VCS tag (one project with `.git` as a file, number-like versions in TOML and unquoted setup.cfg, chains through ids ending in 00) one step from behind a NEWER tag, a project that reaches its config through `*.toml`, and a README with the two bare patterns `init` writes; BUILD alone, BLD, and BUILD inside vYYYY0M.BUILD[-TAG] are driven through the real command bodies.',
     'note': 'ids longer than 7 digits are not enumerated; all-9 ids are the documented maximum and only required to be refused',
     'technique': 'explicit-state exploration of the deterministic BUILD successor system on the real code, all states of a digit class + full chains',
 }
@@ -182,6 +182,12 @@ def run_chunk(chunk):
     return st
 
 
+def readme_text(version, prefix):
+    pep = version[1:] if prefix.startswith("v") else version
+    pep = pep.split(".")[0] + "." + str(int(pep.split(".")[1]))  # (PEP 440 drops leading zeros of the BUILD number)
+    return f"# demo\n[![badge {version}](https://example.invalid/{version}.svg)]\n\n    pip install demo=={pep}\n\nsee {version}.\n"
+
+
 def update_chain(st, start, n):
     """Successive `update` runs in a project under (fake) git whose only tag is the START version - bumps that are not
     tagged (tag = false) leave the tag list behind the config; BUILD must keep growing from the config value."""
@@ -194,12 +200,19 @@ def update_chain(st, start, n):
     # (YYYY.BUILD: a version that reads like a decimal number; once in bumpver.toml, once unquoted in setup.cfg)
     # (toml-glob: the config file is named in file_patterns only through `*.toml`, for another line; current_version relies on the implicit entry)
     for pattern, prefix, fmt in (("vYYYY.BUILD", "v2020.", "toml"), ("YYYY.BLD", "2020.", "toml"), ("YYYY.BUILD", "2020.", "toml"), ("YYYY.BUILD", "2020.", "ini"),
-                                 ("vYYYY.BUILD", "v2020.", "toml-glob")):
+                                 ("vYYYY.BUILD", "v2020.", "toml-glob"), ("vYYYY.BUILD", "v2020.", "toml-readme")):
         if pattern == "YYYY.BLD" and (start.startswith("0") and len(start) > 1):
             continue
         cur = prefix + start
         world.clear_dir(".")
-        if fmt == "toml-glob":
+        if fmt == "toml-readme":
+            # README.md with the two bare patterns `bumpver init` writes; one line names the version twice (badge + link), the PEP 440
+            # form of a v-prefixed version occurs INSIDE the version text (the overlap rule must keep the two apart)
+            cfg = (f'[bumpver]\ncurrent_version = "{cur}"\nversion_pattern = "{pattern}"\ncommit = false\n\n[bumpver.file_patterns]\n'
+                   '"README.md" = ["{version}", "{pep440_version}"]\n')
+            world.write_tree({"bumpver.toml": cfg.encode(), "README.md": readme_text(cur, prefix).encode()})
+            pattern = pattern + " (README with bare patterns)"
+        elif fmt == "toml-glob":
             cfg = (f'release = "{cur}"\n\n[bumpver]\ncurrent_version = "{cur}"\nversion_pattern = "{pattern}"\ncommit = false\n\n[bumpver.file_patterns]\n'
                    '"*.toml" = [\'^release = "{version}"\']\n"a.txt" = ["ver={version};"]\n')
             world.write_tree({"bumpver.toml": cfg.encode(), "a.txt": f"ver={cur};\n".encode()})
@@ -232,6 +245,12 @@ def update_chain(st, start, n):
                 st.outcomes["violation"] += 1
                 st.violation("C17:update-chain-build-not-increasing:" + _cls(start), case, {"announced": o.new_version, "previous": cur, "old_version_line": o.old_version})
                 break
+            if fmt == "toml-readme":
+                got = world.read_tree(".")["README.md"].decode("utf-8", "replace")
+                if got != readme_text(o.new_version, prefix):
+                    st.outcomes["violation"] += 1
+                    st.violation("C17:update-chain-file-shows-another-build:" + _cls(start), case, {"announced": o.new_version, "README.md": got, "expected": readme_text(o.new_version, prefix)})
+                    break
             st.state("update-chain", pattern, o.new_version)
             st.outcomes["update-chain:step"] += 1
             cur = o.new_version
